@@ -339,7 +339,7 @@ def strategy(thorough):
     from hypothesis import strategies as st
     evolve = st.integers(0, 3).flatmap(lambda i: st.none() if i == 0 else st.builds(lambda e, w: dict(e, which=w), progs.edit_strategy(), st.integers(0, 7)))
     return st.builds(lambda p, ev, ch: {"program": p, "src": "random", "evolve": ev, "chained": ch},
-                     progs.program_strategy(max_fns=8 if thorough else 6, allow_explicit=True, allow_cluster=True, allow_init=True, allow_declared=True, allow_rename=True), evolve, st.booleans())
+                     progs.program_strategy(max_fns=8 if thorough else 6, allow_explicit=True, allow_cluster=True, allow_init=True, allow_declared=True, allow_rename=True, allow_nested_refs=True), evolve, st.booleans())
 
 
 def run_shard(ctx):
